@@ -33,8 +33,13 @@ pub fn generate(rng: &mut Rng, seed: u64, run: u64, max_len: usize) -> Trace {
         *rng.pick(&WRITERS[..5])
     };
     let flavor = if rng.chance(1, 2) { Flavor::Text } else { Flavor::Bytes };
-    let wl = gen::workload(rng, flavor, if writer.contains("file") { max_len.min(256) } else { max_len });
-    let ops = gen_ops(rng, &wl, true);
+    let mut wl = gen::workload(rng, flavor, if writer.contains("file") { max_len.min(256) } else { max_len });
+    let mut ops = gen_ops(rng, &wl, true);
+    if rng.chance(1, 8) {
+        let (bytes, lit_ops) = gen_literal_history(rng, 24);
+        wl = gen::Workload { bytes, toks: vec![] };
+        ops = lit_ops;
+    }
     let sim = matches!(writer, "box_dyn" | "mut_dyn" | "box_dyn_send");
     let faults = if !sim || rng.chance(1, 3) {
         vec![]
@@ -109,6 +114,13 @@ impl Lock<'_> {
                 // e.g. std's default write_fmt panics when a Display impl fails although the
                 // stream did not; a pass-through stream forwards to it and inherits that
                 self.stats.probe("both_sides_panicked_identically");
+                return Ok(());
+            }
+            let std_fmt_panic = |r: &OpResult| matches!(r, OpResult::Panic(m) if m.contains("formatting trait implementation returned an error"));
+            if matches!(op, Op::FmtFail(..)) && (std_fmt_panic(&ra) || std_fmt_panic(&rb)) && !matches!(ra, OpResult::Done) && !matches!(rb, OpResult::Done) {
+                // one side reports the failing Display as Err, the other delegates to std's
+                // write_fmt, which panics for it: both are "the formatted write failed"
+                self.stats.probe("failing_display_err_vs_std_panic");
                 return Ok(());
             }
             if let OpResult::Panic(m) = &ra {
